@@ -205,6 +205,71 @@ fn run_vrf(v: &J) -> Res {
     Ok(())
 }
 
+/// Encodings of VRF public keys and of ed25519 discrete-log proofs.
+fn run_enc(v: &J) -> Res {
+    use curve25519_dalek::constants::EIGHT_TORSION;
+    let row = &v["row"];
+    let cls = row["cls"].as_str().unwrap();
+    let accept = v["accept"].as_bool().unwrap();
+    if v["kind"] == "vrf_key" {
+        let keys = vrf_keys();
+        let bytes: Vec<u8> = if cls == "valid" {
+            to_bytes(&keys[0].public)
+        } else if cls == "not_on_curve" {
+            let mut b = vec![2u8; 32];    // y = 0x0202..02: x^2 is not a square for this y
+            b[31] = 0x02;
+            b
+        } else {
+            let i: usize = cls[8..].parse().unwrap();
+            EIGHT_TORSION[i].compress().to_bytes().to_vec()
+        };
+        let got: Option<ecvrf::PublicKey> = ecvrf::PublicKey::deserial(&mut Cursor::new(&bytes[..])).ok();
+        if cls == "not_on_curve" {
+            // whether this particular y is on the curve is a fact about the field, not about the decoder: only require a canonical round trip if accepted
+            if let Some(k) = got {
+                if to_bytes(&k) != bytes || !k.verify_key() {
+                    return fail("an accepted VRF key re-encodes to its bytes and is not of small order", J::Null, json!(hex::encode(&bytes)));
+                }
+            }
+            return Ok(());
+        }
+        if got.is_some() != accept {
+            return fail(&format!("VRF public key decoder accepts {} ({})", hex::encode(&bytes), cls), json!(accept), json!(got.is_some()));
+        }
+        return Ok(());
+    }
+    // ed25519 discrete-log proof: challenge (32) ++ response (32), both canonical scalars
+    let sk = ed25519_dalek::SigningKey::from_bytes(&[41u8; 32]);
+    let mut rng = StdRng::seed_from_u64(5);
+    let proof = prove_dlog_ed25519(&mut rng, &mut RandomOracle::domain("enc"), &sk.verifying_key(), &sk.to_bytes());
+    let mut bytes = to_bytes(&proof);
+    let l: [u8; 32] = [0xed, 0xd3, 0xf5, 0x5c, 0x1a, 0x63, 0x12, 0x58, 0xd6, 0x9c, 0xf7, 0xa2, 0xde, 0xf9, 0xde, 0x14, 0, 0, 0, 0, 0, 0, 0, 0, 0, 0, 0, 0, 0, 0, 0, 0x10];
+    let add_l = |b: &mut [u8]| {
+        let mut carry = 0u16;
+        for i in 0..32 {
+            let s = b[i] as u16 + l[i] as u16 + carry;
+            b[i] = s as u8;
+            carry = s >> 8;
+        }
+    };
+    match cls {
+        "canonical" => {}
+        "challenge_plus_L" => add_l(&mut bytes[..32]),
+        "response_plus_L" => add_l(&mut bytes[32..]),
+        _ => bytes[..32].copy_from_slice(&[0xff; 32]),
+    }
+    let got: Option<Ed25519DlogProof> = Ed25519DlogProof::deserial(&mut Cursor::new(&bytes[..])).ok();
+    if got.is_some() != accept {
+        return fail(&format!("ed25519 dlog proof decoder accepts the {} encoding", cls), json!(accept), json!(got.is_some()));
+    }
+    if let Some(p) = got {
+        if to_bytes(&p) != bytes || !verify_dlog_ed25519(&mut RandomOracle::domain("enc"), &sk.verifying_key(), &p) {
+            return fail("the canonical proof encoding round-trips and verifies", J::Null, J::Null);
+        }
+    }
+    Ok(())
+}
+
 fn sym_scalar(s: u64) -> Fr {
     match s {
         0 => Fr::zero(),
@@ -272,6 +337,10 @@ pub fn main(args: &[String]) -> i32 {
                 let a = v["accept"].as_bool().unwrap();
                 *stats.entry(format!("{}:{}", kind, a)).or_default() += 1;
                 run_pop(&v["row"], a)
+            }
+            "vrf_key" | "dlog_ed25519_enc" => {
+                *stats.entry(format!("{}:{}", kind, v["accept"].as_bool().unwrap())).or_default() += 1;
+                run_enc(v)
             }
             "vrf" | "vrf_flip" => {
                 *stats.entry(format!("{}:{}", kind, v["accept"].as_bool().unwrap())).or_default() += 1;
